@@ -74,8 +74,10 @@ func keysCheck() {
 	oidsList := oidGrid()
 	bs := bodies()
 	type mk struct {
-		key x509.PublicKey
-		der string
+		key  x509.PublicKey
+		der  string
+		fpKE p2p.PeerID
+		fpQ  p2p.PeerID
 	}
 	var all []mk
 	for _, o := range oidsList {
@@ -120,9 +122,30 @@ func keysCheck() {
 						}
 					}
 				}
-				all = append(all, mk{k, string(der)})
+				all = append(all, mk{k, string(der), fpKE, fpQ})
 			})
 		}
+	}
+	// keys parsed one after the other out of one reused receive buffer (ParsePublicKey may
+	// alias its input): the identity of each must still be the identity of that key
+	buf := make([]byte, 0, 256)
+	for i := range all {
+		m := all[i]
+		w := map[string]any{"index": i, "der": evid.Hex([]byte(m.der))}
+		guard("DefaultFingerprinter", w, func() {
+			run.Add("evaluations", 1)
+			buf = append(buf[:0], m.der...)
+			k, err := x509.ParsePublicKey(buf)
+			if err != nil {
+				return
+			}
+			if got := p2pkeswarm.DefaultFingerprinter(&k); got != m.fpKE {
+				run.Violate(evid.Violation{Kind: "fingerprint-not-function-of-key", Site: "DefaultFingerprinter", Detail: fmt.Sprintf("p2pkeswarm: key %v %x parsed from a reused buffer gets identity %v, the same key got %v before (the previous key in that buffer was another one)", k.Algorithm, k.Data, got, m.fpKE), Witness: w})
+			}
+			if got := quicswarm.DefaultFingerprinter(k); got != m.fpQ {
+				run.Violate(evid.Violation{Kind: "fingerprint-not-function-of-key", Site: "DefaultFingerprinter", Detail: fmt.Sprintf("quicswarm: key %v %x parsed from a reused buffer gets identity %v, the same key got %v before", k.Algorithm, k.Data, got, m.fpQ), Witness: w})
+			}
+		})
 	}
 	// equality <=> equal encodings, over all pairs (nil and empty data are the same key)
 	n := len(all)
